@@ -51,11 +51,28 @@ def bash_many(scripts):
         return list(ex.map(bash_run, scripts))
 
 
-def known_class(m, scope):
+def known_class(m, scope, ignore=()):
     for where, letter, fid in CLASS_OF:
-        if letter in (scope if where == "scope" else m.get("ghost", "")):
+        if fid not in ignore and letter in (scope if where == "scope" else m.get("ghost", "")):
             return fid
     return None
+
+
+def fixed_ids():
+    """findings whose repair has been merged (status "fixed: <commit>" in known_findings.json): inside such a
+    class the model still describes the unrepaired code, so there the code is compared with the spec only"""
+    import json, os
+    try:
+        fs = json.load(open(os.path.join(core.ROOT, "known_findings.json")))["findings"]
+    except (OSError, ValueError, KeyError):
+        return set()
+    return {f["id"] for f in fs if str(f.get("status", "")).startswith("fixed")}
+
+
+def in_fixed_class(m, fixed):
+    g = m.get("ghost", "")
+    ids = {fid for where, letter, fid in CLASS_OF if where == "ghost" and letter in g}
+    return bool(ids) and ids <= fixed
 
 
 def code_eq_model(r, m):
@@ -88,9 +105,17 @@ def evaluate(ctx, progs, bash_sample=0, tolerate=None):
     mism, specv, stats = [], [], {"fuel_out": len(progs) - len(keep), "in_theorem": 0, "known_class": {}, "repaired_upstream": 0,
                                   "outside_theorem_pipes_only": 0}
     cand = []
+    fixed = fixed_ids()
+    stats["model_obsolete_in_fixed_class"] = 0
     for i in keep:
         m, s, scope = cf[i]
         r = impl[i]
+        if in_fixed_class(m, fixed):
+            # the run passed a divergence point that has been repaired in the code: spec is the reference
+            stats["model_obsolete_in_fixed_class"] += 1
+            if not code_eq_spec(r, s) and known_class(m, scope, ignore=fixed) is None:
+                cand.append(i)
+            continue
         kc = known_class(m, scope)
         in_thm = scope == "" and m["ghost"] == ""
         if in_thm:
@@ -114,13 +139,23 @@ def evaluate(ctx, progs, bash_sample=0, tolerate=None):
             # code = bash != spec: the spec is wrong here, never a violation
             spec_bash_dis.append({"script": scripts[i], "spec": s, "bash": b})
             continue
-        kc = known_class(m, scope)
+        kc = known_class(m, scope, ignore=fixed)
         v = {"input": scripts[i], "why": "brush: %r; specification (bash semantics): %r; bash: %r" % (r, s, b),
              "class": {"scope": scope, "ghost": m["ghost"]}}
         if kc:
             v["known"] = kc
             stats["known_class"][kc] = stats["known_class"].get(kc, 0) + 1
         specv.append(v)
+    # minimise the first unclassified violations (delta debugging on the program tree)
+    fresh = [k for k, i in enumerate([j for j in cand if not code_eq_bash(impl[j], bres[j])]) if not specv[k].get("known")][:2]
+    order = [j for j in cand if not code_eq_bash(impl[j], bres[j])]
+    for k in fresh:
+        try:
+            small = sg.shrink(progs[order[k]], lambda ps: new_violation(ctx, ps), max_steps=40)
+            specv[k]["input_minimised"] = sg.render(small)
+            specv[k]["input"], specv[k]["input_full"] = specv[k]["input_minimised"], specv[k]["input"]
+        except Exception as e:          # minimisation is a convenience only
+            specv[k]["minimise_error"] = repr(e)[:200]
     # second opinion for the specification itself
     sb = {"compared": 0, "agree": 0, "tolerated": 0, "disagree": []}
     if bash_sample:
@@ -145,6 +180,18 @@ def evaluate(ctx, progs, bash_sample=0, tolerate=None):
             dist[k] = dist.get(k, 0) + n
     return {"cf": cf, "keep": keep, "impl": impl, "mism": mism, "specv": specv, "stats": stats, "spec_vs_bash": sb,
             "distinct": len(distinct), "constructs": dist, "evaluated": len(keep)}
+
+
+def new_violation(ctx, ps):
+    """per program: brush differs from the spec and from bash, and the program is in no known class"""
+    cf = [parse_cf(l) for l in ctx.model("cf", [[str(FUEL)] + sg.encode(p) for p in ps])]
+    keep = [i for i, (m, s, sc) in enumerate(cf) if m["kind"] == "ok" and known_class(m, sc) is None]
+    impl = dict(zip(keep, [parse_impl(l) for l in ctx.impl("c02", [[sg.render(ps[i])] for i in keep])]))
+    out = [False] * len(ps)
+    for i in keep:
+        if not code_eq_spec(impl[i], cf[i][1]):
+            out[i] = not code_eq_bash(impl[i], bash_run(sg.render(ps[i])))
+    return out
 
 
 def crosscheck(ctx, progs, n=36):
